@@ -113,41 +113,66 @@ def memo_k(chk, fx):
         # memo value: fields named like the flag without the suffix, or indexed by the key in this function
         stem = flag[0].split("::")[-1].replace("_analyzed", "")
         n_stores = 0
+        # helpers the templates do not know by name (extracted by a maintainer) are looked into: a store there is a
+        # store of the memo function, tainted by the arguments it was called with
+        scopes = [(f, cn, tainted, None)]
         for n in walk(f.body):
+            if n.get("k") == "CXXMemberCallExpr" and (n.get("callee") or {}).get("parent") == f.o.get("parent") and \
+                    (n.get("callee") or {}).get("n") not in KNOWN_SA and not A.contains(guard_if, n):
+                g = f.facts.by_id.get(n["callee"]["id"])
+                if g is not None and g.body is not None and g is not f:
+                    gt = set()
+                    for p_, a_ in zip(g.o["params"], A.call_args(n)):
+                        if _mentions(a_, tainted):
+                            gt.add(p_["id"])
+                    # a call under a tainted guard taints everything the helper does
+                    cur = n
+                    ctrl = False
+                    while True:
+                        par = cn.pm.get(id(cur))
+                        if par is None:
+                            break
+                        if par.get("k") == "IfStmt" and (par.get("then") is cur or par.get("else") is cur) and \
+                                _mentions(par["cond"], tainted):
+                            ctrl = True
+                        cur = par
+                    scopes.append((g, Canon(g), gt, "control" if ctrl else None))
+        for (sf, scn, staint, forced) in scopes:
+          for n in walk(sf.body):
             if n.get("k") != "CXXMemberCallExpr":
                 continue
             name = (n.get("callee") or {}).get("n")
             if name not in ("push_back", "emplace_back", "set", "add", "reset"):
                 continue
-            objc = cn.c(A.call_object(n))
+            objc = scn.c(A.call_object(n))
             base = objc.split("[")[0].split(".")[-1]
             if not (base == stem or base.rstrip("s") == stem.rstrip("s")):
                 continue
-            if A.contains(guard_if, n):
+            if sf is f and A.contains(guard_if, n):
                 continue
             n_stores += 1
             # control dependence
-            bad = None
+            bad = "the helper that performs it is called under a state-dependent condition" if forced else None
             cur = n
             while True:
-                par = cn.pm.get(id(cur))
+                par = scn.pm.get(id(cur))
                 if par is None:
                     break
                 if par.get("k") == "IfStmt" and (par.get("then") is cur or par.get("else") is cur):
-                    if _mentions(par["cond"], tainted):
-                        bad = "its guard '%s' depends on %s" % (cn.c(par["cond"])[:100], _names(par["cond"], tainted, f))
+                    if _mentions(par["cond"], staint):
+                        bad = "its guard '%s' depends on %s" % (scn.c(par["cond"])[:100], _names(par["cond"], staint, sf))
                         break
                 if par.get("k") in ("ForStmt", "WhileStmt") and par.get("cond") is not None and \
-                        _mentions(par["cond"], tainted):
-                    bad = "its loop bound depends on %s" % _names(par["cond"], tainted, f)
+                        _mentions(par["cond"], staint):
+                    bad = "its loop bound depends on %s" % _names(par["cond"], staint, sf)
                     break
                 cur = par
             # data dependence of the stored value
             if bad is None:
                 for a in A.call_args(n):
-                    if _mentions(a, tainted):
-                        bad = "the stored value depends on %s" % _names(a, tainted, f)
-            site = A.site(f, n)
+                    if _mentions(a, staint):
+                        bad = "the stored value depends on %s" % _names(a, staint, sf)
+            site = A.site(sf, n)
             if bad:
                 chk.violation("MEMO-K", site, "MEMO-K:%s:%s" % (f.o["n"], base),
                               "store into the memo '%s' (keyed by %s) is state-dependent: %s. A memo must record the "
@@ -459,6 +484,13 @@ FIRSTB = "make_right_side_slice_first(%s, %s)" % (RI, BETA)
 EMPTYB = "make_right_side_slice_empty(%s, %s)" % (RI, BETA)
 
 
+# member functions of state_analyzer / parser the templates know by name; any other member called from a templated
+# function is treated as an extracted helper and looked through
+KNOWN_SA = {"add_situation", "analyze_states", "closure", "transitions", "solve_conflict", "make_right_side_slice_first",
+            "make_nterm_first", "analyze_nterm_sets", "make_right_side_slice_empty", "make_right_side_empty",
+            "make_nterm_empty", "make_situation_idx", "make_situation_info", "get_parse_table_idx", "is_shift"}
+
+
 def closure_spec(chk, fx):
     from . import pathsig as PS
     chk.rule("CLOSURE", "items generated by closure()", 2)
@@ -474,7 +506,7 @@ def closure_spec(chk, fx):
                     cn_.c(A.call_object(n)) == "closures[$1]":
                 out.append(PS.Event("memo", cn_.c(A.call_args(n)[0]), n))
         return out
-    actual, nodes = PS.event_conditions(cn, f.body, events_of=evs, unroll=1, drop=_drop_noise)
+    actual, nodes = PS.event_conditions(cn, f.body, events_of=evs, unroll=1, drop=_drop_noise, known=KNOWN_SA)
     items = {}
     for (k, t), cond in actual.items():
         if k == "add":
